@@ -167,6 +167,20 @@ func runCheck(prop, tier string, seed int) int {
 	seen := map[string]bool{}
 	var names []string
 	var missing []string
+	// static callers inside the repository (for the rule on helpers below)
+	hasCaller := map[*ssa.Function]bool{}
+	for _, fn := range w.funcs {
+		for _, b := range fn.Blocks {
+			for _, ins := range b.Instrs {
+				if ci, ok := ins.(ssa.CallInstruction); ok {
+					if cal := ci.Common().StaticCallee(); cal != nil && cal != fn {
+						hasCaller[cal] = true
+					}
+				}
+			}
+		}
+	}
+	var inlinedHelpers []string
 	for _, pat := range ps.Funcs {
 		n := 0
 		for k, fn := range w.funcs {
@@ -181,6 +195,16 @@ func runCheck(prop, tier string, seed int) int {
 			}
 			if strings.HasSuffix(pat, "*") && fn.Parent() != nil {
 				continue // closures are verified inside their parents
+			}
+			// an unexported function without a contract is no entry point: its
+			// body is executed inside every caller (callee policy 2), with the
+			// arguments the callers really pass, and its obligations are checked
+			// there; verifying it alone for arbitrary arguments would demand
+			// more than any property states (a helper extracted by a refactoring
+			// inherits the checks its caller made before the call)
+			if strings.HasSuffix(pat, "*") && w.db.Lookup(fn) == nil && hasCaller[fn] && fn.Object() != nil && !fn.Object().Exported() && fn.Signature.Recv() == nil {
+				inlinedHelpers = append(inlinedHelpers, k)
+				continue
 			}
 			seen[k] = true
 			names = append(names, k)
@@ -485,6 +509,7 @@ func runCheck(prop, tier string, seed int) int {
 		"failed":                   len(violations),
 		"known_findings_reported":  len(dedupe(knownHit)),
 		"relied_clauses_withdrawn": withdrawn,
+		"helpers_verified_inside_their_callers": inlinedHelpers,
 		"samples":                  samples,
 		"slowest_proved":           slowest,
 		"contract_files":           w.db.Files,
